@@ -111,6 +111,18 @@ class LoopVC:
                 pre.append(s)
         return pre, loops, post
 
+    def segments(self):
+        """-> ([statements before loop 0, between loop 0 and 1, ..., after the last loop], [loops])"""
+        body = [s for s in self.node.body if not (isinstance(s, ast.Expr) and isinstance(s.value, ast.Constant))]
+        segs, loops = [[]], []
+        for s in body:
+            if isinstance(s, ast.For):
+                loops.append(s)
+                segs.append([])
+            else:
+                segs[-1].append(s)
+        return segs, loops
+
     def loop_header(self, loop):
         """for <i>, <cur> in enumerate(<arr>)  -> (i name, cur name, arr name)"""
         it = loop.iter
@@ -180,6 +192,10 @@ class LoopVC:
             return -self.ev(e.operand, st, pc)
         if isinstance(e, ast.BinOp):
             a, b = self.ev(e.left, st, pc), self.ev(e.right, st, pc)
+            if isinstance(a, SList) and isinstance(b, SList) and isinstance(e.op, ast.Add):
+                self.fresh += 1
+                mm = z3.Int(f"cat!{self.fresh}")
+                return SList(z3.Lambda([mm], z3.If(mm < a.len, z3.Select(a.arr, mm), z3.Select(b.arr, mm - a.len))), a.len + b.len)
             a, b = self.num(a), self.num(b)
             if isinstance(e.op, ast.Add):
                 return a + b
@@ -192,8 +208,12 @@ class LoopVC:
             f = e.func
             if isinstance(f, ast.Attribute) and f.attr == "get" and len(e.args) == 2:
                 d = self.ev(f.value, st, pc)
-                if isinstance(d, SDict):
-                    raise Unsupported("dict.get with default (list-valued dicts are outside the subset)")
+                if isinstance(d, SDictList) and isinstance(e.args[1], ast.List) and not e.args[1].elts:
+                    key = self.ev(e.args[0], st, pc)
+                    present = z3.Select(d.dom, key)
+                    return SList(z3.If(present, z3.Select(d.elems, key), z3.K(I, z3.IntVal(0))), z3.If(present, z3.Select(d.lens, key), z3.IntVal(0)))
+                if isinstance(d, (SDict, SDictList)):
+                    raise Unsupported("dict.get with a default other than `[]` on a dict of lists")
             if isinstance(f, ast.Name) and f.id == "len" and len(e.args) == 1:
                 o = self.ev(e.args[0], st, pc)
                 if isinstance(o, SArr):
@@ -299,6 +319,8 @@ class LoopVC:
                 l2.len = l2.len + 1
                 return [Path(st, pc)]
             raise Unsupported(f"call statement {ast.unparse(c.func)}")
+        if isinstance(s, ast.For):
+            return self.inner_loop(s, p)
         if isinstance(s, ast.Continue):
             return [Path(st, pc, "continue")]
         if isinstance(s, ast.Raise):
@@ -307,6 +329,78 @@ class LoopVC:
         if isinstance(s, ast.Pass):
             return [p]
         raise Unsupported(f"statement {type(s).__name__} @{self.where(s)}")
+
+    def havoc(self, st, names, tag):
+        out = copy_state(st)
+        for n in names:
+            v = st.get(n)
+            if isinstance(v, SDict):
+                out[n] = SDict(z3.Array(f"{n}!dom{tag}", I, B), z3.Array(f"{n}!val{tag}", I, I))
+            elif isinstance(v, SList):
+                out[n] = SList(z3.Array(f"{n}!arr{tag}", I, I), z3.Int(f"{n}!len{tag}"))
+            elif isinstance(v, SCounter):
+                out[n] = SCounter(z3.Array(f"{n}!cnt{tag}", I, I))
+            elif isinstance(v, SDictList):
+                out[n] = SDictList(z3.Array(f"{n}!dom{tag}", I, B), z3.Array(f"{n}!elems{tag}", I, z3.ArraySort(I, I)), z3.Array(f"{n}!lens{tag}", I, I))
+            elif isinstance(v, SArr):
+                raise Unsupported("inner loop writes an array")
+            elif z3.is_expr(v):
+                out[n] = z3.Const(f"{n}!{tag}", v.sort())
+            elif n in out:
+                del out[n]
+        return out
+
+    def inner_loop(self, s, p):
+        """`for x in <list>:` inside the outer iteration, cut at its head with the contract's inner invariant
+        (self.inner_inv(entry state, state, t, list) -> [(name, formula)]): init / preservation become obligations
+        under the current path condition; afterwards the state is havocked and the invariant assumed at len(list)."""
+        if getattr(self, "inner_inv", None) is None:
+            raise Unsupported(f"nested loop without an inner invariant @{self.where(s)}")
+        if not (isinstance(s.target, ast.Name) and isinstance(s.iter, ast.Name) and not s.orelse):
+            raise Unsupported(f"nested loop is not `for x in name` @{self.where(s)}")
+        st, pc = p.state, p.pc
+        lst = st.get(s.iter.id)
+        if not isinstance(lst, SList):
+            raise Unsupported("nested loop over a non-list")
+        mod = set()
+        for n in ast.walk(s):
+            if isinstance(n, (ast.Assign, ast.AugAssign)):
+                for t in (n.targets if isinstance(n, ast.Assign) else [n.target]):
+                    while isinstance(t, (ast.Subscript, ast.Attribute)):
+                        t = t.value
+                    if isinstance(t, ast.Name):
+                        mod.add(t.id)
+            if isinstance(n, ast.Call) and isinstance(n.func, ast.Attribute) and n.func.attr in ("append", "extend", "update", "pop", "clear", "setdefault", "add", "insert", "remove", "sort"):
+                t = n.func.value
+                while isinstance(t, (ast.Subscript, ast.Attribute)):
+                    t = t.value
+                if isinstance(t, ast.Name):
+                    mod.add(t.id)
+            if isinstance(n, (ast.Break, ast.Return)):
+                raise Unsupported("break / return inside a nested loop")
+        if s.iter.id in mod:
+            raise Unsupported("nested loop modifies the list it iterates over")
+        self.fresh += 1
+        tag = f"in{self.fresh}"
+        where = self.where(s)
+        for cname, f in self.inner_inv(st, st, z3.IntVal(0), lst):
+            self.safety.append((pc, f, f"inner loop @{where}: init {cname}"))
+        t = z3.Int(f"t!{tag}")
+        sh = self.havoc(st, mod, tag + "a")
+        hyp = z3.And(pc, 0 <= t, t < lst.len, *[f for _, f in self.inner_inv(st, sh, t, lst)])
+        sh[s.target.id] = z3.Select(lst.arr, t)
+        for bi, bp in enumerate(self.run_block(s.body, Path(sh, hyp))):
+            if bp.outcome == "raise":
+                self.safety.append((bp.pc, z3.BoolVal(False), f"inner loop @{where}: path {bi} raises {bp.exc}: unreachable"))
+                continue
+            for cname, f in self.inner_inv(st, bp.state, t + 1, lst):
+                self.safety.append((bp.pc, f, f"inner loop @{where}: preservation path {bi}: {cname}"))
+        sx = self.havoc(st, mod | {s.target.id}, tag + "x")
+        # the assumed invariant enters the path condition through a marker, so that the path-coverage obligation
+        # can be stated over the branch conditions alone (marker := true) -- see kernels.verification_conditions
+        marker = z3.Bool(f"assumed!{tag}")
+        self.assumed.append((marker, z3.And(*[f for _, f in self.inner_inv(st, sx, lst.len, lst)])))
+        return [Path(sx, z3.And(pc, marker))]
 
     def store(self, t, v, st, pc):
         if isinstance(t, ast.Name):
@@ -338,6 +432,7 @@ class LoopVC:
         st[iname] = k
         st[cname] = z3.Select(arr.arr, k)
         self.safety = []
+        self.assumed = []
         paths = self.run_block(loop.body, Path(st, z3.BoolVal(True)))
         return paths, list(self.safety)
 
